@@ -138,37 +138,63 @@ func vh_catchup_session() {
 // with AppendEntries from the snapshot boundary until the follower has caught up. C12 (snapshot
 // installation makes progress and is followed by log replication), C02/C11 (FSM = snapshot + the
 // leader's committed entries, in order), C04.
-func vh_snapshot_session() {
+func vh_snapshot_session() { vSnapshotSession(false) }
+
+// vh_restore_session: the same walk after a user Restore on the leader (gap-tolerant store): leader and
+// follower both still hold the old entry base+1, the leader's snapshot sits at the burned index base+2
+// (an index no log holds) in the leader's current term, and its log continues at base+3. The follower is
+// brought to the restored state by the snapshot, never by replaying old entries. C20 (followers), C12.
+func vh_restore_session() { vSnapshotSession(true) }
+
+func vSnapshotSession(restore bool) {
 	w := 3
 	base := vBase()
 	L, lenv := vNewRaft("L", vRaftOpts{n: 2, w: w})
 	F, fenv := vNewRaft("F", vRaftOpts{n: 1, w: w})
 	ls, fs := lenv.logs, fenv.logs
-	// leader: snapshot at base+1, log base+2 .. base+1+lenL (lenL in 1..2), entry base+1 compacted away
-	lenL := vChoose("L.len", 1, 2)
-	si := base + 1
 	vAssume(base >= 1)
-	ls.low, ls.high = base+2, base+1+uint64(lenL)
+	// offsets: snapshot at base+siOff, the leader's entries above it are base+siOff+1 .. base+topOff
+	siOff, topOff := 1, 1+vChoose("L.len", 1, 2)
+	if restore {
+		siOff, topOff = 2, 3
+	}
+	si := base + uint64(siOff)
 	for k := 1; k <= w; k++ {
 		idx := base + uint64(k)
-		if k >= 2 && k <= 1+lenL {
+		inLog := k > siOff && k <= topOff
+		if restore && k == 1 {
+			inLog = true // the old entry below the burned index is kept by a gap-tolerant store
+		}
+		if inLog {
 			ls.present.Set(idx, 1)
 		} else {
 			ls.present.Set(idx, 0)
 		}
+		fs.present.Set(idx, 0)
 		t := ls.typ.Get(idx)
 		vAssume(vOr(t == uint64(LogCommand), t == uint64(LogNoop)))
 		vAssume(vCanonBlobCell(ls.data.Get(idx)))
 		vAssume(vCanonBlobCell(ls.ext.Get(idx)))
 	}
+	ls.low, ls.high = base+uint64(siOff)+1, base+uint64(topOff)
+	if restore {
+		ls.low = base + 1
+	}
 	L.lastSnapshotIndex, L.lastSnapshotTerm = si, vU64("L.snapTerm")
 	L.lastLogIndex, L.lastLogTerm = ls.high, ls.term.Get(ls.high)
-	vAssume(L.lastSnapshotTerm <= ls.term.Get(base+2))
-	if lenL == 2 {
-		vAssume(ls.term.Get(base+2) <= ls.term.Get(base+3))
+	for k := siOff + 1; k <= topOff; k++ {
+		prev := L.lastSnapshotTerm
+		if k > siOff+1 {
+			prev = ls.term.Get(base + uint64(k-1))
+		}
+		vAssume(prev <= ls.term.Get(base+uint64(k)))
 	}
 	vAssume(L.lastLogTerm == L.currentTerm && L.currentTerm < 1<<62) // its own no-op/entry is last
-	L.commitIndex = base + 1 + uint64(vChoose("L.commitOff", 0, lenL))
+	if restore {
+		vAssume(L.lastSnapshotTerm == L.currentTerm)         // a user restore stamps the snapshot with the current term
+		vAssume(ls.term.Get(base+1) <= L.lastSnapshotTerm) // the old entry
+	}
+	L.commitIndex = si + uint64(vChoose("L.commitOff", 0, topOff-siOff))
 	L.lastApplied = L.commitIndex
 	vAssume(lenv.stable.term == L.currentTerm && lenv.stable.voteTerm <= L.currentTerm)
 	snapCfg := vConfig("snapcfg", 1, false)
@@ -176,25 +202,36 @@ func vh_snapshot_session() {
 	vAssume(snapSize >= 0)
 	lenv.snaps.metas = []*SnapshotMeta{{Version: SnapshotVersionMax, ID: "lsnap", Index: si, Term: L.lastSnapshotTerm,
 		Configuration: snapCfg.Clone(), ConfigurationIndex: vU64("snap.cfgIndex"), Size: snapSize}}
-	vAssume(lenv.snaps.metas[0].ConfigurationIndex <= si)
+	vAssume(lenv.snaps.metas[0].ConfigurationIndex <= base)
 	L.configurations.latestIndex, L.configurations.committedIndex = lenv.snaps.metas[0].ConfigurationIndex, lenv.snaps.metas[0].ConfigurationIndex
-	// follower: everything it has lies below the leader's snapshot: snapshot at base (or none when base is its start), log empty or just base.. nothing above
+	// follower: everything it has lies below the leader's snapshot
 	fs.low, fs.high = 0, 0
-	for k := 1; k <= w; k++ {
-		fs.present.Set(base+uint64(k), 0)
-	}
 	F.lastSnapshotIndex, F.lastSnapshotTerm = base, vU64("F.snapTerm")
-	vAssume(F.lastSnapshotTerm <= L.lastSnapshotTerm)
-	if vChoose("F.cacheAtSnapshot", 0, 1) == 1 {
-		F.lastLogIndex, F.lastLogTerm = base, F.lastSnapshotTerm
-	} else {
-		F.lastLogIndex, F.lastLogTerm = 0, 0
-	}
-	F.commitIndex = vIte64(vBool("F.commitZero"), 0, base)
 	F.lastApplied = base
+	if restore {
+		// it holds the same old entry as the leader (log matching), applied or not
+		fs.low, fs.high = base+1, base+1
+		fs.present.Set(base+1, 1)
+		fs.term.Set(base+1, ls.term.Get(base+1))
+		fs.typ.Set(base+1, ls.typ.Get(base+1))
+		fs.data.Set(base+1, ls.data.Get(base+1))
+		fs.ext.Set(base+1, ls.ext.Get(base+1))
+		F.lastLogIndex, F.lastLogTerm = base+1, fs.term.Get(base+1)
+		vAssume(F.lastSnapshotTerm <= fs.term.Get(base+1))
+		F.lastApplied = base + uint64(vChoose("F.appliedOff", 0, 1))
+		F.commitIndex = F.lastApplied
+	} else {
+		vAssume(F.lastSnapshotTerm <= L.lastSnapshotTerm)
+		if vChoose("F.cacheAtSnapshot", 0, 1) == 1 {
+			F.lastLogIndex, F.lastLogTerm = base, F.lastSnapshotTerm
+		} else {
+			F.lastLogIndex, F.lastLogTerm = 0, 0
+		}
+		F.commitIndex = vIte64(vBool("F.commitZero"), 0, base)
+	}
 	F.state = Follower
-	vAssume(F.currentTerm <= L.currentTerm && fenv.stable.term == F.currentTerm && fenv.stable.voteTerm <= F.currentTerm && F.lastSnapshotTerm <= F.currentTerm)
-	F.configurations.latestIndex, F.configurations.committedIndex = vU64("F.cfgIndex"), 0
+	vAssume(F.currentTerm <= L.currentTerm && fenv.stable.term == F.currentTerm && fenv.stable.voteTerm <= F.currentTerm && F.lastSnapshotTerm <= F.currentTerm && F.lastLogTerm <= F.currentTerm)
+	F.configurations.latestIndex = vU64("F.cfgIndex")
 	vAssume(F.configurations.latestIndex <= base)
 	F.configurations.committedIndex = F.configurations.latestIndex
 	vAssume(L.configurations.latest.Servers[0].Suffrage == Voter)
@@ -204,18 +241,18 @@ func vh_snapshot_session() {
 	s := L.leaderState.replState[peer.ID]
 	s.failures = 0
 	lastIndex := L.getLastIndex()
-	// wherever the leader believes the follower is, at or below the snapshot boundary: the previous entry is not in the leader's log
-	s.nextIndex = base + uint64(vChoose("nextOff", 1, 1))
+	// wherever the leader believes the follower is, at or below the snapshot boundary
+	s.nextIndex = base + uint64(vChoose("nextOff", 1, siOff))
 	cfg := L.conf.Load().(Config)
 	cfg.MaxAppendEntries = vChoose("maxAE", 1, 2)
 	L.conf.Store(cfg)
 	vNoIOFaults()
 	vIOSize(snapSize)
+	preFApplied := F.lastApplied
 	nAE, nSnap := 0, 0
 	lenv.trans.onAppend = func(id ServerID, a *AppendEntriesRequest, resp *AppendEntriesResponse) error {
 		nAE++
 		vAssert(nAE <= 2*w+3, "C12.snapsession.bounded-rpcs")
-		vAssert(nSnap == 1, "C12.snapsession.snapshot-before-entries")
 		rpc, ch := vMakeRPC(a)
 		F.appendEntries(rpc, a)
 		out := <-ch
@@ -243,14 +280,14 @@ func vh_snapshot_session() {
 	vAssert(s.nextIndex == lastIndex+1, "C12.snapsession.caught-up")
 	vAssert(F.currentTerm == L.currentTerm, "C01.snapsession.follower-adopts-term")
 	vAssert(F.lastSnapshotIndex == si && F.lastSnapshotTerm == L.lastSnapshotTerm, "C11.snapsession.follower-snapshot-is-leaders")
-	for k := 2; k <= 1+lenL; k++ {
+	for k := siOff + 1; k <= topOff; k++ {
 		idx := base + uint64(k)
 		same := vAnd(fs.term.Get(idx) == ls.term.Get(idx), vAnd(fs.typ.Get(idx) == ls.typ.Get(idx), fs.data.Get(idx) == ls.data.Get(idx)))
 		vAssert(vAnd(fs.has(idx), same), "C04.snapsession.logs-equal-above-snapshot")
 	}
 	fl, _ := F.getLastLog()
 	vAssert(fl == lastIndex, "C04.snapsession.last-log-is-leaders")
-	vAssert(F.commitIndex == L.commitIndex || (F.commitIndex == 0 && L.commitIndex <= si), "C05.snapsession.follower-commit-follows-leader")
+	vAssert(F.commitIndex == L.commitIndex || (F.commitIndex <= si && L.commitIndex <= si), "C05.snapsession.follower-commit-follows-leader")
 	vAssert(vSameServers(F.configurations.latest.Servers, snapCfg.Servers), "C11.snapsession.configuration-from-snapshot")
 	// the follower's FSM: restored once from the snapshot, then the leader's committed Command entries above it, in order, once
 	nRestore := 0
@@ -263,9 +300,10 @@ func vh_snapshot_session() {
 		case opFSMApply:
 			vCover("snapsession.fed-fsm")
 			vAssert(nRestore == 1, "C02.snapsession.apply-only-after-restore")
+			vAssert(nRestore == 1 && c.index > si, "C20.session.nothing-from-before-the-restore-is-applied-after-it")
 			vAssert(c.index >= next && c.index <= L.commitIndex, "C02.snapsession.feed-committed-in-order")
 			vAssert(c.term == ls.term.Get(c.index) && uint64(c.typ) == ls.typ.Get(c.index) && vBlobToCell(c.data) == ls.data.Get(c.index), "C02.snapsession.feed-equals-leader-entry")
-			for k := 2; k <= 1+lenL; k++ {
+			for k := siOff + 1; k <= topOff; k++ {
 				idx := base + uint64(k)
 				vAssert(vImplies(vAnd(idx >= next, idx < c.index), ls.typ.Get(idx) == uint64(LogNoop)), "C02.snapsession.skipped-only-noop")
 			}
@@ -273,6 +311,7 @@ func vh_snapshot_session() {
 		}
 	}
 	vAssert(nRestore == 1, "C02.snapsession.restored-once")
+	vAssert(nRestore == 1 && F.lastApplied >= si && F.lastApplied >= preFApplied, "C20.session.follower-restored-from-the-user-snapshot")
 	vAssert(F.lastApplied == vIte64(L.commitIndex > si, L.commitIndex, si), "C02.snapsession.applied-is-leader-commit")
 	vReach("snapsession.end")
 }
